@@ -808,7 +808,19 @@ func scenarios(thorough bool) []*dialerh.Scenario {
 						sw = allPolicies(1)
 					}
 					lats := ms(10, 40, 100, 160)
-					add("lat", n, off, tol, init, []dom{{TCP4, lats, allFail}}, sw, F.latDepth[n])
+					d := F.latDepth[n]
+					if thorough {
+						// the deepest level only where tolerance and offsets interact; the rest one level less
+						switch {
+						case n == 1 && init != pMin && init != pRnd:
+							d--
+						case n == 2 && !(tol > 0 && (init == pMin || init == pMov)):
+							d--
+						case n == 3 && tol == 0:
+							d--
+						}
+					}
+					add("lat", n, off, tol, init, []dom{{TCP4, lats, allFail}}, sw, d)
 				}
 			}
 		}
@@ -827,8 +839,8 @@ func scenarios(thorough bool) []*dialerh.Scenario {
 	for _, n := range F.famN {
 		for _, init := range []pol{pMin, pRnd} {
 			d := F.famDepth[n]
-			if init == pRnd && n >= 2 {
-				d-- // every RNG outcome is executed per selection: one level less for the same cost
+			if (init == pRnd && n >= 2) || (thorough && n == 3 && init == pMin) {
+				d-- // random: every RNG outcome is executed per selection; n=3: 27 events per level
 			}
 			add("fam", n, -1, 0, init, []dom{
 				{DAT4, nil, kill}, {DNS4, nil, kill}, {TCP4, nil, kill},
@@ -871,7 +883,7 @@ func famSizes(thorough bool) sizes {
 		latN: []int{1, 2, 3}, latDepth: map[int]int{1: 5, 2: 4, 3: 3},
 		chainN: []int{2, 3}, chainDepth: map[int]int{2: 4, 3: 3},
 		famN: []int{2, 3}, famDepth: map[int]int{2: 5, 3: 4},
-		tcp46N: []int{2, 3}, tcp46Depth: map[int]int{2: 4, 3: 4},
+		tcp46N: []int{2, 3}, tcp46Depth: map[int]int{2: 4, 3: 3},
 		swapN: []int{3}, swapDepth: map[int]int{3: 6},
 	}
 }
